@@ -6,9 +6,9 @@ Pipeline of one check run:
   runner -> line diff (+ direct property tests on the crate's own output) -> evidence.
 """
 import hashlib
+import random
 import json
 import os
-import random
 import re
 import subprocess
 import sys
